@@ -16,6 +16,9 @@ type binaryStreamPProfProtoDec struct {
 }
 
 func ns(timestamp uint64) uint64 {
+	if timestamp == 0 {
+		return 0
+	}
 	for timestamp < 1000000000000000000 {
 		timestamp *= 10
 	}
